@@ -548,8 +548,28 @@ def consistent(paths_, atom, start=0):
 
 
 def reduce_ifexp(expr, atom):
-    """Replace conditional expressions whose test the valuation decides by the selected branch."""
+    """Replace conditional expressions whose test the valuation decides by the selected branch, and value-level
+    `a or b` / `a and b` whose left operand's truth the valuation decides by the operand Python would return."""
     class T(ast.NodeTransformer):
+        def visit_BoolOp(self, n):
+            self.generic_visit(n)
+            vals = list(n.values)
+            while len(vals) > 1:
+                t = truth(vals[0], atom)
+                if t is None:
+                    break
+                if isinstance(n.op, ast.Or):
+                    if t:
+                        return vals[0]
+                    vals = vals[1:]
+                else:
+                    if not t:
+                        return vals[0]
+                    vals = vals[1:]
+            if len(vals) == 1:
+                return vals[0]
+            return ast.BoolOp(op=n.op, values=vals)
+
         def visit_IfExp(self, n):
             self.generic_visit(n)
             t = truth(n.test, atom)
